@@ -1,0 +1,137 @@
+//go:build verif
+
+// Machine-checked contracts for package contactql (comment-only; read by /verif/gocv).
+// See /verif/DESIGN.md §2.4 for the contract language.
+
+package contactql
+
+//@ pred OpWF(op Operator) := op == OpEqual || op == OpNotEqual || op == OpContains || op == OpGreaterThan || op == OpLessThan || op == OpGreaterThanOrEqual || op == OpLessThanOrEqual
+//@ pred isCmpOp(op Operator) := op == OpGreaterThan || op == OpLessThan || op == OpGreaterThanOrEqual || op == OpLessThanOrEqual
+//@ pred isNumOrDate(vt assets.FieldType) := vt == assets.FieldTypeNumber || vt == assets.FieldTypeDatetime
+
+// what the evaluator needs to know about a condition: the operator is one of the seven, ordering
+// operators are only used on numbers and dates, and contains is only used on text
+//@ pred CondOK(c *Condition, resolver Resolver) := c != nil && !isnil(resolver) && OpWF(c.operator) && (c.operator == OpContains ==> !isNumOrDate(c.resolveValueType(resolver))) && (isCmpOp(c.operator) ==> isNumOrDate(c.resolveValueType(resolver)))
+
+// dynamic type of a property value agrees with the value type of the property
+//@ pred valTyped(val any, vt assets.FieldType) := (vt == assets.FieldTypeNumber ==> typeis(val, decimal.Decimal)) && (vt == assets.FieldTypeDatetime ==> typeis(val, time.Time)) && (!isNumOrDate(vt) ==> typeis(val, string))
+
+// the value type a queryable uses for a property (for *flows.Contact: attribute table, text for URNs, field type)
+//@ pure propVT(q Queryable, propType PropertyType, key string) assets.FieldType
+
+// NodeOK: every condition of the tree satisfies CondOK, no nil children (recursive over the finite tree, A8)
+//@ pure NodeOK(n QueryNode, resolver Resolver) bool reads Condition::propType, Condition::propKey, Condition::operator, BoolCombination::children, elems[QueryNode]
+//@ axiom nodeok_nonnil: forall n QueryNode, r Resolver :: NodeOK(n, r) ==> !isnil(n)
+//@ axiom nodeok_cond: forall n QueryNode, r Resolver :: typeis(n, *Condition) ==> (NodeOK(n, r) <==> CondOK(n.(*Condition), r))
+//@ axiom nodeok_bool: forall n QueryNode, r Resolver :: typeis(n, *BoolCombination) ==> (NodeOK(n, r) <==> (n.(*BoolCombination) != nil && (forall k int :: 0 <= k && k < len(n.(*BoolCombination).children) ==> NodeOK(n.(*BoolCombination).children[k], r))))
+
+//@ interface Queryable.QueryProperty
+//@   pure
+//@   ensures [typed] forall i int :: 0 <= i && i < len(result) ==> valTyped(result[i], propVT(recv, arg2, arg1))
+
+//@ func (c *Condition) resolveValueType
+//@   pure
+//@   reads Condition::propType, Condition::propKey
+//@   nopanic
+//@   requires c != nil && (!isnil(resolver) || c.propType != PropertyTypeField)
+//@   ensures [urn] c.propType == PropertyTypeURN ==> result == assets.FieldTypeText
+//@   ensures [attr] c.propType == PropertyTypeAttribute ==> result == attributes[c.propKey]
+
+//@ func (c *Condition) validate
+//@   requires c != nil && OpWF(c.operator) && !isnil(resolver)
+//@   ensures [validated] isnil(result) ==> CondOK(c, resolver)
+
+//@ func EvaluateQuery
+//@   nopanic
+//@   requires query != nil && !isnil(query.resolver) && !isnil(queryable) && NodeOK(query.root, query.resolver)
+//@   requires [same_assets] forall pt PropertyType, k string, c *Condition :: (c != nil && c.propType == pt && c.propKey == k) ==> propVT(queryable, pt, k) == c.resolveValueType(query.resolver)
+//@   ensures result == evaluateNode(env, query.resolver, query.root, queryable)
+
+//@ func evaluateNode
+//@   pure
+//@   nopanic
+//@   uses nodeok_nonnil, nodeok_cond, nodeok_bool
+//@   requires NodeOK(node, resolver) && !isnil(queryable)
+//@   requires [same_assets] forall pt PropertyType, k string, c *Condition :: (c != nil && c.propType == pt && c.propKey == k) ==> propVT(queryable, pt, k) == c.resolveValueType(resolver)
+//@   ensures [bool] typeis(node, *BoolCombination) ==> result == evaluateBoolCombination(env, resolver, node.(*BoolCombination), queryable)
+//@   ensures [cond] typeis(node, *Condition) ==> result == evaluateCondition(env, resolver, node.(*Condition), queryable)
+
+//@ func evaluateBoolCombination
+//@   pure
+//@   nopanic
+//@   requires b != nil && !isnil(queryable) && (forall k int :: 0 <= k && k < len(b.children) ==> NodeOK(b.children[k], resolver))
+//@   requires [same_assets] forall pt PropertyType, k string, c *Condition :: (c != nil && c.propType == pt && c.propKey == k) ==> propVT(queryable, pt, k) == c.resolveValueType(resolver)
+//@   ensures [and] b.op == BoolOperatorAnd ==> (result <==> (forall k int :: 0 <= k && k < len(b.children) ==> evaluateNode(env, resolver, b.children[k], queryable)))
+//@   ensures [or] b.op != BoolOperatorAnd ==> (result <==> (exists k int :: 0 <= k && k < len(b.children) && evaluateNode(env, resolver, b.children[k], queryable)))
+//@ loop 1
+//@   invariant forall k int :: 0 <= k && k <= $i ==> evaluateNode(env, resolver, b.children[k], queryable)
+//@ loop 2
+//@   invariant forall k int :: 0 <= k && k <= $i ==> !evaluateNode(env, resolver, b.children[k], queryable)
+
+//@ func evaluateCondition
+//@   pure
+//@   nopanic
+//@   requires CondOK(c, resolver) && !isnil(queryable)
+//@   requires [same_assets] propVT(queryable, c.propType, c.propKey) == c.resolveValueType(resolver)
+//@   let vals := queryable.QueryProperty(env, c.propKey, c.propType)
+//@   ensures [absent] (c.value == "" && c.operator == OpEqual) ==> (result <==> len(vals) == 0)
+//@   ensures [present] (c.value == "" && c.operator == OpNotEqual) ==> (result <==> len(vals) > 0)
+//@   ensures [all] (c.operator == OpNotEqual && c.value != "") ==> (result <==> (forall k int :: 0 <= k && k < len(vals) ==> evaluateConditionWithValue(env, resolver, c, vals[k])))
+//@   ensures [any] (c.operator != OpNotEqual && !(c.value == "" && c.operator == OpEqual)) ==> (result <==> (exists k int :: 0 <= k && k < len(vals) && evaluateConditionWithValue(env, resolver, c, vals[k])))
+//@ loop 1
+//@   invariant anyTrue <==> (exists k int :: 0 <= k && k <= $i && evaluateConditionWithValue(env, resolver, c, vals[k]))
+//@   invariant allTrue <==> (forall k int :: 0 <= k && k <= $i ==> evaluateConditionWithValue(env, resolver, c, vals[k]))
+
+//@ func evaluateConditionWithValue
+//@   pure
+//@   nopanic
+//@   requires CondOK(c, resolver) && valTyped(val, c.resolveValueType(resolver))
+
+//@ func textComparison
+//@   nopanic
+//@   requires op == OpEqual || op == OpNotEqual || op == OpContains
+
+//@ func dateComparison
+//@   nopanic
+//@   requires op == OpEqual || op == OpNotEqual || op == OpGreaterThan || op == OpGreaterThanOrEqual || op == OpLessThan || op == OpLessThanOrEqual
+//@   ensures [eq] op == OpEqual ==> (result <==> (sp_dayStart(queryVal) <= instant(objectVal) && instant(objectVal) < sp_dayStart(queryVal) + 86400000000000))
+//@   ensures [ne] op == OpNotEqual ==> (result <==> !(sp_dayStart(queryVal) <= instant(objectVal) && instant(objectVal) < sp_dayStart(queryVal) + 86400000000000))
+//@   ensures [gt] op == OpGreaterThan ==> (result <==> instant(objectVal) >= sp_dayStart(queryVal) + 86400000000000)
+//@   ensures [ge] op == OpGreaterThanOrEqual ==> (result <==> instant(objectVal) >= sp_dayStart(queryVal))
+//@   ensures [lt] op == OpLessThan ==> (result <==> instant(objectVal) < sp_dayStart(queryVal))
+//@   ensures [le] op == OpLessThanOrEqual ==> (result <==> instant(objectVal) < sp_dayStart(queryVal) + 86400000000000)
+
+//@ func numberComparison
+//@   nopanic
+//@   requires op == OpEqual || op == OpNotEqual || op == OpGreaterThan || op == OpGreaterThanOrEqual || op == OpLessThan || op == OpLessThanOrEqual
+//@   ensures [eq] op == OpEqual ==> (result <==> dec(objectVal) == dec(queryVal))
+//@   ensures [ne] op == OpNotEqual ==> (result <==> dec(objectVal) != dec(queryVal))
+//@   ensures [gt] op == OpGreaterThan ==> (result <==> dec(objectVal) > dec(queryVal))
+//@   ensures [ge] op == OpGreaterThanOrEqual ==> (result <==> dec(objectVal) >= dec(queryVal))
+//@   ensures [lt] op == OpLessThan ==> (result <==> dec(objectVal) < dec(queryVal))
+//@   ensures [le] op == OpLessThanOrEqual ==> (result <==> dec(objectVal) <= dec(queryVal))
+
+// mutual consistency of the comparison operators, derived from the two contracts above
+//@ lemma date_ops_consistent(t time.Time, q time.Time)
+//@   call lt := dateComparison(t, OpLessThan, q)
+//@   call eq := dateComparison(t, OpEqual, q)
+//@   call gt := dateComparison(t, OpGreaterThan, q)
+//@   call le := dateComparison(t, OpLessThanOrEqual, q)
+//@   call ge := dateComparison(t, OpGreaterThanOrEqual, q)
+//@   call ne := dateComparison(t, OpNotEqual, q)
+//@   assert [exactly_one] (lt || eq || gt) && !(lt && eq) && !(lt && gt) && !(eq && gt)
+//@   assert [le_union] le <==> (lt || eq)
+//@   assert [ge_union] ge <==> (gt || eq)
+//@   assert [ne_negation] ne <==> !eq
+
+//@ lemma number_ops_consistent(x decimal.Decimal, q decimal.Decimal)
+//@   call lt := numberComparison(x, OpLessThan, q)
+//@   call eq := numberComparison(x, OpEqual, q)
+//@   call gt := numberComparison(x, OpGreaterThan, q)
+//@   call le := numberComparison(x, OpLessThanOrEqual, q)
+//@   call ge := numberComparison(x, OpGreaterThanOrEqual, q)
+//@   call ne := numberComparison(x, OpNotEqual, q)
+//@   assert [exactly_one] (lt || eq || gt) && !(lt && eq) && !(lt && gt) && !(eq && gt)
+//@   assert [le_union] le <==> (lt || eq)
+//@   assert [ge_union] ge <==> (gt || eq)
+//@   assert [ne_negation] ne <==> !eq
